@@ -10,9 +10,10 @@
                         what the player really is (harness knowledge; key only for shim players)
     "parsed":bool,"p":{"version","ip","uuid","name","props","key":{..},"rest":n}
                         the result of the harness parser written after Paper's VelocityProxy }
-   {"ev":"noreq","proto":p,"connected":bool}
+   {"ev":"noreq","proto":p,"connected":bool,"otherchannel":bool,"otheranswered":bool}
         the backend sent login success without ever requesting forwarding; connected = the proxy
-        reported this backend as the player's current server afterwards *)
+        reported this backend as the player's current server afterwards; otheranswered = before that a
+        proxy plugin had answered a login plugin request of the backend on some other channel *)
 EXTENDS Forwarding, TraceLib
 
 CONSTANT Collect
